@@ -97,6 +97,11 @@ class Model(HoloPyObject):
     def _iteritems(self):
         keys = ['_dummy_scatterer', 'theory', '_parameters',
                 '_parameter_names', '_maps']
+        # constructor arguments that are not parameters of the fit
+        if len(self.constraints) > 0:
+            keys.append('constraints')
+        if hasattr(self, 'calc_func'):
+            keys.append('calc_func')
         for key in keys:
             item = getattr(self, key)
             if isinstance(item, np.ndarray) and item.ndim == 1:
@@ -112,9 +117,15 @@ class Model(HoloPyObject):
         dummy_scatterer = fields['_dummy_scatterer']
         scatterer_parameters = read_map(maps['scatterer'], parameters)
         scatterer = dummy_scatterer.from_parameters(scatterer_parameters)
-        kwargs = {'scatterer': scatterer, 'theory': fields['theory']}
-        for key in ['optics', 'model', 'theory']:
+        # fittable theory parameters belong to the theory, not to the model
+        theory = fields['theory'].from_parameters(
+            read_map(maps['theory'], parameters))
+        kwargs = {'scatterer': scatterer, 'theory': theory}
+        for key in ['optics', 'model']:
             kwargs.update(read_map(maps[key], parameters))
+        for key in ['constraints', 'calc_func']:
+            if key in fields:
+                kwargs[key] = fields[key]
         model = cls(**kwargs)
         if model._parameters == parameters:
             model._parameter_names = fields['_parameter_names']
